@@ -94,9 +94,13 @@ func c15SameWords(a, b []string) bool {
 	return true
 }
 
+// c15HasWord: text carries the word w (as a field of its own, possibly wrapped in
+// Markdown punctuation such as **w**, [w](..), "w:").
 func c15HasWord(text, w string) bool {
-	for _, f := range strings.Fields(text) {
-		if f == w || strings.Contains(f, w) {
+	for _, f := range strings.FieldsFunc(text, func(r rune) bool {
+		return r == ' ' || r == '\t' || r == '[' || r == ']' || r == '(' || r == ')' || r == '*' || r == '_' || r == ':' || r == '#'
+	}) {
+		if f == w {
 			return true
 		}
 	}
@@ -287,7 +291,7 @@ func c15Find(c *c15Case, md string, only map[int]bool) *c15Mismatch {
 					}
 					for _, w := range cell.Words {
 						if m := lost(w); m != nil {
-							m.Feature = c15TableFeature(el, r, cc, md)
+							m.Feature = el.Src[r][cc].Kind
 							return m
 						}
 					}
